@@ -34,7 +34,7 @@ func Break(t *rapid.T, c GraphCase, permille int, refusePct int) (GraphCase, []s
 		for _, u := range all {
 			g.Walk(g.TopElements(u), func(p model.Pos, k model.Kind, n any, isRef bool, ref string) {
 				kindAt[p] = k
-				if len(foreign[k]) < 100 {
+				if len(foreign[k]) < 100 && p.Ptr != "" { // (not the whole document: "" written in the root would designate the root itself)
 					foreign[k] = append(foreign[k], fragmentOf(p.Ptr, false))
 				}
 			})
